@@ -65,7 +65,14 @@ def outcome(parser, raw, fmt, lenient):
         r = parser.parse(raw, fmt, lenient)
     except Exception as e:
         return ("exc", type(e).__name__, str(e)), None
-    return ("ok",) + read(r), r
+    seen = ("ok",) + read(r)
+    # what a handler may do with the values it is given: lists are its own (a default handed out by reference would let
+    # it change the format, and with it every later parse)
+    given_a, given_o = r.arguments(False), r.options(False)
+    for k, v in [(k, v) for k, v in r.arguments(True).items() if k not in given_a] + [(k, v) for k, v in r.options(True).items() if k not in given_o]:
+        if isinstance(v, list):
+            v.append("APPENDED-BY-THE-CONSUMER")  # only to values the line did not give: the defaults
+    return seen, r
 
 
 def eq(a, b):
